@@ -92,6 +92,9 @@ pub enum Op {
     Empty,
     /// ((inner^k1 tail)^k2 outer)^k3 — nested periods
     Nested(Word, u8, Word, u8, Word, u8),
+    /// four test cases p·c0·s, p·c1·t, q·c2·t, q·c3·s — equivalent states whose edges are inserted in
+    /// different orders once c0..c3 get the same label (class conversion) 
+    Cross(Word, Word, Word, Word, [u16; 4]),
 }
 
 #[derive(Clone, Debug)]
@@ -185,6 +188,7 @@ impl Program {
                         .collect()
                 }
                 Op::Duplicate(i) if n > 0 => tcs[idx(*i, n)].clone(),
+                Op::Cross(..) => vec![],
                 Op::Nested(inner, k1, tail, k2, outer, k3) => {
                     let (inner, tail, outer) = (word(inner), word(tail), word(outer));
                     let mut level1 = vec![];
@@ -215,6 +219,17 @@ impl Program {
                     b
                 }
             };
+            if let Op::Cross(p, q, sfx, t, c) = op {
+                let (p, q, sfx, t) = (word(p), word(q), word(sfx), word(t));
+                let sym = |i: u16| alpha[idx(i, alpha.len())].clone();
+                for (pre, ci, suf) in [(&p, c[0], &sfx), (&p, c[1], &t), (&q, c[2], &t), (&q, c[3], &sfx)] {
+                    let mut b = pre.clone();
+                    b.push(sym(ci));
+                    b.extend(suf.iter().cloned());
+                    tcs.push(b);
+                }
+                continue;
+            }
             let mut new = new;
             new.truncate(40);
             tcs.push(new);
@@ -290,6 +305,8 @@ fn op_strategy(w: OpWeights, max_rep: u8) -> impl Strategy<Value = Op> {
         w.empty => Just(Op::Empty),
         w.repeat / 2 + 1 => (vec(any::<u16>(), 1..=2), 2u8..=3, vec(any::<u16>(), 0..=2), 2u8..=3, vec(any::<u16>(), 0..=1), 1u8..=2)
             .prop_map(|(a, k1, b, k2, c, k3)| Op::Nested(a, k1, b, k2, c, k3)),
+        1 => (vec(any::<u16>(), 1..=2), vec(any::<u16>(), 1..=2), vec(any::<u16>(), 1..=2), vec(any::<u16>(), 1..=2), any::<[u16; 4]>())
+            .prop_map(|(p, q, s, t, c)| Op::Cross(p, q, s, t, c)),
     ]
 }
 
